@@ -9,6 +9,8 @@ leaves behind (writes are sequential). Compressed files are outside the model (g
 the harness enumerates every truncation of the compressed files on the implementation.
 -/
 import Bermuda.Lemmas.CodecPrefix
+import Bermuda.Lemmas.CodecPy
+import Bermuda.Lemmas.CodecTriangle
 namespace Bermuda.Properties.C19
 open Bermuda Bermuda.Codec
 
@@ -77,6 +79,55 @@ theorem decode_prefix_safe (t : RawTriangle) (h : wf t = true) (n : Nat) (hn : n
     (∃ e, decode ((encode t).take n) = .error e) ∨
     (∃ k, decode ((encode t).take n) = .ok (t.take k)) :=
   decode_prefix_safe_main t h n hn
+
+/-- **… for the writer as written.** `to_binary` decides on a metadata record with Python's `!=` (`encodePy`); on
+coherent triangles (adjacent metadata Python-equal exactly when identical — every triangle the all-offsets stream
+uses; the driver evaluates `coherent`) its file is `encode t`, so every strict prefix of the file `to_binary`
+really wrote is refused or yields leading cells. -/
+theorem decode_prefix_safe_py (t : RawTriangle) (h : wf t = true) (hc : coherent t = true) (n : Nat)
+    (hn : n < (encodePy t).length) :
+    (∃ e, decode ((encodePy t).take n) = .error e) ∨
+    (∃ k, decode ((encodePy t).take n) = .ok (t.take k)) := by
+  rw [encodePy_eq_encode t hc] at hn ⊢
+  exact decode_prefix_safe t h n hn
+
+/-- **the compressed flavour.** gzip is a parameter; the ONE library fact relied on is named as a hypothesis:
+a strict prefix of a (single-member) gzip stream is refused by the decompressor (`EOFError` / `BadGzipFile`).
+Under it every truncation of a `.tribc` file raises — whatever the extension / flag combination (if the reader
+settles on "not compressed" it meets the gzip magic `1f 8b` instead of the .trib magic, which needs `hm`; if the
+extension is unknown it refuses outright). The hypothesis is false for a writer that emits several gzip members
+(a cut exactly at a member boundary decompresses): `_write_binary` must keep writing ONE member. -/
+theorem compressed_prefix_refused (gzip : Bytes → Bytes) (gunzip : Bytes → Except Err Bytes)
+    (htrunc : ∀ b n, n < (gzip b).length → ∃ e, gunzip ((gzip b).take n) = .error e)
+    (hm : ∀ b n, ((gzip b).take n).take 4 ≠ K.magic)
+    (t : RawTriangle) (ext : Ext) (flag : Option Bool) (n : Nat) (hn : n < (gzip (encodePy t)).length) :
+    ∃ e, decodeFile gunzip ext flag ((gzip (encodePy t)).take n) = .error e := by
+  unfold decodeFile
+  cases hi : inferCompress ext flag with
+  | error e => exact ⟨e, rfl⟩
+  | ok c =>
+    cases c
+    · refine ⟨.valueError, ?_⟩
+      simp only [decode, hm (encodePy t) n, ne_eq, not_false_eq_true, if_true]
+    · obtain ⟨e, he⟩ := htrunc (encodePy t) n hn
+      exact ⟨e, by simp [he]⟩
+
+/-- **… for the function `from_binary` as a whole** (`Fn.fromBinary` = `decode`, the numeric view `cellOfRaw` of every
+record, then the constructor `Triangle(cells)`): a prefix of a canonical cell sequence is canonical, so the
+constructor neither raises on the leading cells nor reorders them — what `from_binary` RETURNS for a torn file is
+an error or exactly the leading cells of the triangle that was written. `cells` is the numeric view of the written
+triangle, `Canonical` what every `Triangle` object satisfies. -/
+theorem fromBinary_prefix_safe (t : RawTriangle) (h : wf t = true) (hc : coherent t = true)
+    {cells : List Cell} (hv : t.mapM Fn.cellOfRaw = .ok cells) (hcan : Properties.C01.Canonical cells)
+    (n : Nat) (hn : n < (encodePy t).length) :
+    (∃ e, Fn.fromBinary ((encodePy t).take n) = .error e) ∨
+    (∃ k, Fn.fromBinary ((encodePy t).take n) = .ok (cells.take k)) := by
+  unfold Fn.fromBinary
+  rcases decode_prefix_safe_py t h hc n hn with ⟨e, he⟩ | ⟨k, hk⟩
+  · exact Or.inl ⟨e, by rw [he]; rfl⟩
+  · refine Or.inr ⟨k, ?_⟩
+    rw [hk]
+    simp only [bind, Except.bind, mapM_take_ok k hv, Properties.C01.ofCells_idem (canonical_take hcan k)]
 
 /-- a file cut inside the 5-byte header is refused -/
 theorem decode_header_prefix_error (t : RawTriangle) (n : Nat) (hn : n < 5) :
